@@ -6,7 +6,7 @@
    (timestamp handed out, entries not yet applied / acknowledged) are exercised on the real DB by
    the concurrent stress in harness/conc.go and belong to C34's watermark contract. *)
 From Verif Require Import Bytes Keys Consts Spec Lsm Iter Sys SysRejected TxnLog.
-From Verif Require TxnProofs GetProofs.
+From Verif Require TxnProofs GetProofs CompactProofs.
 Open Scope N_scope.
 Import TxnProofs.
 
@@ -72,6 +72,12 @@ Print Assumptions C03_atomic_none.
 Theorem C03_lookup_never_above_read_ts : forall d k ts e, db_get d k ts = Some e -> e_ver e <= ts.
 Proof. exact TxnProofs.db_get_ver_le. Qed.
 Print Assumptions C03_lookup_never_above_read_ts.
+
+(* the same for forward iterators without AllVersions *)
+Theorem C03_iterator_never_above_read_ts : forall s x o seek e,
+  io_all o = false -> io_reverse o = false -> In e (txn_iterate s x o seek) -> e_ver e <= x_read x.
+Proof. exact TxnProofs.iterate_fwd_ver_le. Qed.
+Print Assumptions C03_iterator_never_above_read_ts.
 
 (* ... or all of them are in the tree at a version at or below the read timestamp (read timestamp at
    or above c: the commit was applied in one step) *)
